@@ -11,7 +11,7 @@ def run_tables(ck, rule, gen, scope='present', **kw):
     return n
 
 
-TIME_SWEEP = ['dt64_s', 'epoch_list', 'epoch_array', 'series', 'series_tz', 'dtindex', 'dtindex_tz', 'dtindex_s', 'series_us', 'pydatetime']
+TIME_SWEEP = ['dt64_s', 'epoch_list', 'epoch_array', 'epoch_series', 'series', 'series_tz', 'dtindex', 'dtindex_tz', 'dtindex_s', 'series_us', 'pydatetime']
 DATA_SWEEP = ['list_nan', 'tuple_nan', 'ndarray', 'series', 'ndarray_f4', 'ndarray_int']
 
 
